@@ -54,7 +54,7 @@ REQUIRED = dict(
               'stored-one-per-layer', 'stored-equals-exposed', 'hdf5-one-per-layer', 'aligned:temperature', 'aligned:abundance',
               'aligned:pressure', 'contract-fired']
     + ['contract:scale.' + k for k in _HYDRO] + ['contract:model.' + k for k in _HYDRO],
-    classes=['pressure:simple', 'pressure:array', 'pressure:file', 'nlayers:1', 'nlayers:2', 'nlayers:100', 'T:layers',
+    classes=['history:a-grid-computed-over-a-hundred-grids-ago-again', 'pressure:simple', 'pressure:array', 'pressure:file', 'nlayers:1', 'nlayers:2', 'nlayers:100', 'T:layers',
              'T:isothermal', 'T:npoint', 'T:guillot', 'units:km', 'atmosphere:extended-beyond-two-radii', 'planet-given-in:Rearth', 'planet-given-in:Mearth', 'planet-given-in:km', 'scale:irregular-levels', 'stored:hdf5', 'stored:recorded',
              'perturb:temperature', 'perturb:abundance', 'perturb:pressure', 'perturb:top-layer', 'perturb:bottom-layer',
              'via-setter', 'pressure:array-with-unordered-derived-levels', 'T-dtype:i', 'T-dtype:f',
@@ -315,12 +315,21 @@ def quantity(name):
 
 
 # ------------------------------------------------------------------- workloads
+_grids_seen = []          # (nlayers, pmin, pmax) of every grid this process has computed, in order
+
+
 def wl_grid(ctx, rng):
     from taurex.data.profiles.pressure import SimplePressureProfile
     n = int(rng.choice([1, 2, 3, 100, 200])) if rng.random() < 0.3 else int(rng.integers(1, 101))
     lpmax = rng.uniform(-2.0, 9.0)
     dec = rng.uniform(1.0, 14.0) if rng.random() < 0.7 else 10 ** rng.uniform(-3, 0)
     pmax, pmin = float(10 ** lpmax), float(10 ** (lpmax - dec))
+    if len(_grids_seen) > 140 and rng.random() < 0.35:
+        # a long-lived process (a retrieval, a script building model after model): a grid it computed long ago -- more
+        # than a hundred other grids ago -- is asked for again
+        n, pmin, pmax = _grids_seen[int(rng.integers(0, len(_grids_seen) - 135))]
+        ctx.observe('history:a-grid-computed-over-a-hundred-grids-ago-again')
+    _grids_seen.append((n, pmin, pmax))
     pp = SimplePressureProfile(nlayers=n, atm_min_pressure=pmin, atm_max_pressure=pmax)
     ctx.observe('pressure:simple', 'nlayers:%d' % n)
     ctx.feature(kind='grid', nlayers=n, pmin=pmin, pmax=pmax)
@@ -334,6 +343,7 @@ def wl_grid(ctx, rng):
         pmin2 = pmin * float(10 ** rng.uniform(-2, 0))
         fp['atm_min_pressure'][3](pmin2)
         L.redeclare(pp, atm_min_pressure=pmin2)
+        _grids_seen.append((n, pmin2, pmax))
         ctx.observe('via-setter')
         pp.compute_pressure_profile()
     ctx.sig('grid', n, pmin, pmax)
